@@ -238,12 +238,13 @@ theorem gcmkw_unwrap_of_wrapped (P : Prims) (hg : GcmLaw P) (name : String) (kle
   simp only [eiv, hk, ect, etag, Option.bind_some, htag, ne_eq, not_true_eq_false, if_false, hopen, Option.map_some]
 
 /-- **C04 (key management round trip, direct key).**  With `dir` the content key on both sides is the
-    shared key itself: after wrapping, the CEK's `k` is the key's `k`, and unwrapping (any recipient object,
-    any JWE) with the same key yields a CEK with that same `k`. -/
+    shared key itself: after wrapping, the CEK's `k` is the key's `k`, and unwrapping (any JWE, any recipient
+    object whose encrypted key is absent or empty — after fix F30 others are refused, see
+    `C02.direct_refuses_encrypted_key`) with the same key yields a CEK with that same `k`. -/
 theorem dir_wrap_then_unwrap (P : Prims) (name : String) (fuel fuel' : Nat) (jwe jwe2 rcp2 jwe' cek' : Json)
     (rkvs k c0 c : List (String × Json)) (v : Json) (rnd rnd' : Bs)
     (hf : wrapFamily name = some .dir) (hnd : (k.map Prod.fst).Nodup) (hk : lookup "k" k = some v)
-    (hc : lookup "k" c0 = none)
+    (hc : lookup "k" c0 = none) (hne : noEncryptedKey rcp2 = true)
     (h : wrp P (fuel + 1) name jwe (.obj rkvs) (.obj k) (.obj c0) rnd = some (jwe', cek')) :
     cek'.get? "k" = some v ∧
     ∃ cek2, unw P (fuel' + 1) name jwe2 rcp2 (.obj k) (.obj c) rnd' = some cek2 ∧ cek2.get? "k" = some v := by
@@ -253,7 +254,7 @@ theorem dir_wrap_then_unwrap (P : Prims) (name : String) (fuel fuel' : Nat) (jwe
     simp only [Option.some.injEq] at hck
     subst hck
     simp [get?, lookup_updateKV c0 k "k" hnd, hk]
-  · refine ⟨.obj (updateKV c k), by simp [unw, hf], ?_⟩
+  · refine ⟨.obj (updateKV c k), by simp [unw, hf, hne], ?_⟩
     simp [get?, lookup_updateKV c k "k" hnd, hk]
 
 end Jose.Props.C04
